@@ -7,7 +7,8 @@ C12 wid    idx=.. dic=<u8> word=<u32> raw=<u32>
 C12 lexset idx=.. nsp=<n> lex=<lexicon>|<lexicon>|.. offs=<n,..> q=<raw,..>
              lexicon = <posid:a:b:w;..>@<w.e,..>        a, b, w = `*` or comma lists of raw word ids
 C12 grammar idx=.. g=<pos;..> calls=<g|r|a|f:pos;..>     (get id / register_pos / handle_user_pos allow / forbid)
-C12 stack  idx=.. sysrows=<row;..> plug=<a|f:pos;..> base=sys|plug users=<row;..>|<row;..>|.. wids=<raw,..>
+C12 stack  idx=.. sysrows=<row;..> plug=<a|f:pos;..> base=sys|plug pre=all|sys users=<row;..>|<row;..>|.. wids=<raw,..>
+             pre  = which `new_user`/`preload_pos` the tree has (`PreVariant`): `all` = pinned (absent = `all`), `sys` = repaired
              row  = surface:headword:reading:mode:pos:A:B:W      pos = c1.c2.c3.c4.c5.c6 (interned strings)
              A, B = `*` or units joined by `/`;  unit = U<n> | <n> | I,<surface>,<pos>,<reading>
              W    = `*` or U<n> | <n> joined by `/`
@@ -162,11 +163,11 @@ def handleLexset (toks : List (List Char)) : String :=
 def sysWordsOf (rows : List Row) (b : Built) : List SysWord :=
   (rows.zip b.words).map (fun rw => ⟨rw.1.headword, rw.2.posId, rw.1.reading⟩)
 
-def buildUsers (pre : List Pos × List SysWord) : List (List Row) → Nat → Except String (List Built)
+def buildUsers (v : PreVariant) (base : Base) : List (List Row) → Nat → Except String (List Built)
   | [], _ => .ok []
   | rows :: rest, k =>
-    match build (some pre) rows with
-    | .ok b => (match buildUsers pre rest (k + 1) with
+    match buildUser v base rows with
+    | .ok b => (match buildUsers v base rest (k + 1) with
       | .ok bs => .ok (b :: bs)
       | .error e => .error e)
     | .err e => .error ("err:Build:" ++ toString k ++ ":" ++ showErr e)
@@ -198,6 +199,7 @@ def handleStack (toks : List (List Char)) : String :=
   | some sysrows, some plug, some base, some users, some wids =>
     match allSome ((items ';' plug).map parsePlug), allSome ((items '|' users).map parseRows) with
     | some plugs, some urows =>
+      let pre : PreVariant := if kv? toks "pre" = some "sys".toList then .sysOnly else .all
       match build none sysrows with
       | .err e => "err:Build:0:" ++ showErr e
       | .panic _ => "PANIC:Build:0"
@@ -219,7 +221,8 @@ def handleStack (toks : List (List Char)) : String :=
           | .err e => "err:Load:" ++ showErr e
           | .panic _ => "PANIC:Load"
           | .ok g0 =>
-            match buildUsers (g0, sysWords) urows 1 with
+            -- `LexiconSet::new(system, num_system_pos)` of either load: the POS count of the system dictionary itself
+            match buildUsers pre ⟨g0, sysPos.length, sysWords⟩ urows 1 with
             | .error e => e
             | .ok builts =>
               match readUsers builts with
